@@ -10,20 +10,13 @@
 using namespace muscle;
 using namespace refl;
 
-// Session subclass.  A DataNode that goes back to the node pool keeps its _orderedCounter (DataNode::Reset()/Init()
-// do not touch it), so the names generated under a recycled node depend on allocation history; that is
-// not observable by the property, and is normalised here (counter zeroed when the node is removed) so
-// that generated names are reproducible.
+// Session subclass (the `#define protected public` of refl_common.h already opens the node API; the subclass
+// is the place for virtual overrides should a harness need them).
 class IdxSession : public StorageReflectSession
 {
 public:
    IdxSession() {}
    virtual const char * GetTypeName() const {return "IdxSession";}
-   virtual void NotifySubscribersThatNodeChanged(DataNode & node, const ConstMessageRef & oldData, NodeChangeFlags f)
-   {
-      if (f.IsBitSet(NODE_CHANGE_FLAG_ISBEINGREMOVED)) node._orderedCounter = 0;
-      StorageReflectSession::NotifySubscribersThatNodeChanged(node, oldData, f);
-   }
 };
 
 typedef World<IdxSession> W;
